@@ -64,6 +64,7 @@ pub struct Ctx {
     /// C15: when non-zero every system stays inside `run` until the gate is opened, at most this many milliseconds
     pub gate_ms: AtomicUsize,
     pub gate_open: AtomicBool,
+    pub real_borrow: Arc<AtomicBool>,
 }
 
 pub const NONE: usize = usize::MAX;
@@ -80,6 +81,7 @@ impl Ctx {
             hold_ms: AtomicUsize::new(250),
             gate_ms: AtomicUsize::new(0),
             gate_open: AtomicBool::new(false),
+            real_borrow: Arc::new(AtomicBool::new(false)),
         })
     }
     pub fn ev(&self, k: EvK, uid: usize) {
@@ -116,6 +118,10 @@ impl Ctx {
 pub struct DynAcc {
     reads: Vec<ResourceId>,
     writes: Vec<ResourceId>,
+    raw_reads: Vec<Res>,
+    raw_writes: Vec<Res>,
+    /// really borrow during fetch (switched on only for the runs that look for sibling-caused borrow panics)
+    on: Arc<AtomicBool>,
 }
 impl Accessor for DynAcc {
     fn try_new() -> Option<Self> {
@@ -129,12 +135,57 @@ impl Accessor for DynAcc {
     }
 }
 
-pub struct DynData;
-impl<'a> DynamicSystemData<'a> for DynData {
+/// the system data of the harness systems REALLY borrows what the accessor declares (each existing resource once:
+/// exclusively if it is among the writes, shared otherwise), so a sibling-caused borrow conflict shows up as the panic C01 forbids
+pub enum HeldGuard<'a> {
+    S0(shred::Fetch<'a, R0>),
+    S1(shred::Fetch<'a, R1>),
+    S2(shred::Fetch<'a, R2>),
+    S3(shred::Fetch<'a, R3>),
+    X0(shred::FetchMut<'a, R0>),
+    X1(shred::FetchMut<'a, R1>),
+    X2(shred::FetchMut<'a, R2>),
+    X3(shred::FetchMut<'a, R3>),
+}
+pub struct DynData<'a> {
+    pub held: Vec<HeldGuard<'a>>,
+}
+impl<'a> DynamicSystemData<'a> for DynData<'a> {
     type Accessor = DynAcc;
     fn setup(_: &DynAcc, _: &mut World) {}
-    fn fetch(_: &DynAcc, _: &'a World) -> Self {
-        DynData
+    fn fetch(acc: &DynAcc, world: &'a World) -> Self {
+        let mut held = vec![];
+        let mut done: Vec<Res> = vec![];
+        if !acc.on.load(Ordering::SeqCst) {
+            return DynData { held };
+        }
+        for w in &acc.raw_writes {
+            if done.contains(w) {
+                continue;
+            }
+            done.push(*w);
+            let g = match w.0 % 4 {
+                0 => world.try_fetch_mut_by_id::<R0>(rid(*w)).map(HeldGuard::X0),
+                1 => world.try_fetch_mut_by_id::<R1>(rid(*w)).map(HeldGuard::X1),
+                2 => world.try_fetch_mut_by_id::<R2>(rid(*w)).map(HeldGuard::X2),
+                _ => world.try_fetch_mut_by_id::<R3>(rid(*w)).map(HeldGuard::X3),
+            };
+            held.extend(g);
+        }
+        for r in &acc.raw_reads {
+            if done.contains(r) {
+                continue;
+            }
+            done.push(*r);
+            let g = match r.0 % 4 {
+                0 => world.try_fetch_by_id::<R0>(rid(*r)).map(HeldGuard::S0),
+                1 => world.try_fetch_by_id::<R1>(rid(*r)).map(HeldGuard::S1),
+                2 => world.try_fetch_by_id::<R2>(rid(*r)).map(HeldGuard::S2),
+                _ => world.try_fetch_by_id::<R3>(rid(*r)).map(HeldGuard::S3),
+            };
+            held.extend(g);
+        }
+        DynData { held }
     }
 }
 
@@ -146,8 +197,9 @@ pub struct LogSys {
 }
 
 impl LogSys {
+    /// (used by the par/seq and async oracles: declares, but their worlds hold no such resources, so nothing is borrowed)
     pub fn new(uid: usize, reads: Vec<ResourceId>, writes: Vec<ResourceId>, rt: u8, ctx: Arc<Ctx>) -> LogSys {
-        LogSys { uid, acc: DynAcc { reads, writes }, rt, ctx }
+        LogSys { uid, acc: DynAcc { reads, writes, raw_reads: vec![], raw_writes: vec![], on: ctx.real_borrow.clone() }, rt, ctx }
     }
 }
 
@@ -162,8 +214,8 @@ fn rt_of(rt: u8) -> RunningTime {
 }
 
 impl<'a> System<'a> for LogSys {
-    type SystemData = DynData;
-    fn run(&mut self, _: DynData) {
+    type SystemData = DynData<'a>;
+    fn run(&mut self, _data: DynData<'a>) {
         self.ctx.ev(EvK::Enter, self.uid);
         self.ctx.hold(self.uid);
         self.ctx.ev(EvK::Exit, self.uid);
@@ -441,7 +493,13 @@ pub type Builder = DispatcherBuilder<'static, 'static>;
 fn mk_sys(s: &SysSpec, uid: usize, ctx: &Arc<Ctx>) -> LogSys {
     LogSys {
         uid,
-        acc: DynAcc { reads: s.reads.iter().map(|r| rid(*r)).collect(), writes: s.writes.iter().map(|r| rid(*r)).collect() },
+        acc: DynAcc {
+            reads: s.reads.iter().map(|r| rid(*r)).collect(),
+            writes: s.writes.iter().map(|r| rid(*r)).collect(),
+            raw_reads: s.reads.clone(),
+            raw_writes: s.writes.clone(),
+            on: ctx.real_borrow.clone(),
+        },
         rt: s.rt,
         ctx: ctx.clone(),
     }
@@ -588,6 +646,18 @@ pub fn build(case: &Case) -> Result<Live, (usize, String)> {
     let mut world = World::empty();
     // a resource that exists before setup must keep its value (C13)
     world.insert(R0(4711));
+    // every resource id the generator draws from exists, so declared access is really borrowed during run
+    for r in crate::model::RES_POOL.iter() {
+        if *r == (0, 0) {
+            continue;
+        }
+        match r.0 % 4 {
+            0 => world.insert_by_id(rid(*r), R0(0)),
+            1 => world.insert_by_id(rid(*r), R1(0)),
+            2 => world.insert_by_id(rid(*r), R2(0)),
+            _ => world.insert_by_id(rid(*r), R3(0)),
+        }
+    }
     Ok(Live {
         infos: infos(case),
         ctx,
